@@ -14,8 +14,13 @@ Reading used here
   (Spec/C03 `holds`), with the previous allocation as current holders.
 * refused = the call returns an error.
 * the RPC pin entry (`rpcPin`, used by the adders for shard / cluster-DAG / meta entries and
-  with preset allocations) is only held to the generic clauses (refused ⇒ unchanged, frame,
-  follower), not to the option clauses of the user-facing `Pin`.
+  with preset allocations) is held to the generic clauses (refused ⇒ unchanged, frame,
+  follower), not to the option clauses of the user-facing `Pin`, and (round 8c) to
+  `rpc_pin_stored_as_sent`: a NEW entry (no entry for that cid before, no update source) is
+  stored with the type, reference and depth of the pin object that was sent, and with its
+  preset allocations unless it asks to be pinned everywhere (factors −1/−1 after defaults).
+* (round 8c) a pin object without a cid (`cid.Undef`, the number `noCid`) names no entry:
+  `undefClauses` — such a request is refused and changes nothing.
 -/
 import ClusterVerif.Model.C04
 import ClusterVerif.Spec.C03
@@ -147,6 +152,29 @@ def pinClauses (cfg : Cfg) (pre post : PinMap) (c : Nat) (o : Opts) : List (Stri
           | some e => !e.allocs.isEmpty || C03.holds (allocInput cfg pre c o) (.ok st.allocs)
           | none => C03.holds (allocInput cfg pre c o) (.ok st.allocs))]
 
+/-- the adders' pin object, new at its cid: stored with type / reference / depth as sent, preset
+    allocations honoured (unless the pin asks for "everywhere") -/
+def sentAsIs (cfg : Cfg) (pre post : PinMap) (p : Pin) : Bool :=
+  match pre.get p.cid, viaUpdate p.cid p.opts, post.get p.cid with
+  | none, none, some st =>
+    st.type == p.type && st.ref == p.ref && st.depth == p.depth &&
+    (p.allocs.isEmpty || (effMin cfg p.opts == -1 && effMax cfg p.opts == -1) || st.allocs == p.allocs)
+  | _, _, _ => true
+
+/-- `cid.Undef` as the driver numbers it (the token `-`; outside every cid universe) -/
+def noCid : Nat := 4294967295
+
+/-- the request names no cid at all -/
+def opUndef (cfg : Cfg) : Op → Bool
+  | .pin c _ => c == noCid
+  | .rpcPin p => p.cid == noCid
+  | .pinPath path _ => resolve cfg path == some noCid
+  | _ => false
+
+/-- a request without a cid is refused, nothing changes, and no entry is ever keyed by the undefined cid -/
+def undefClauses (cfg : Cfg) (pre : PinMap) (op : Op) (res : Option Pin) (post : PinMap) : List (String × Bool) :=
+  [("pin_without_cid_refused", !opUndef cfg op || (res.isNone && sameMap pre post))]
+
 def genericClauses (cfg : Cfg) (pre : PinMap) (op : Op) (res : Option Pin) (post : PinMap) : List (String × Bool) :=
   [("one_entry_per_cid", post.wf),
    ("refused_leaves_pinset_unchanged", res.isSome || sameMap pre post),
@@ -165,7 +193,8 @@ def okClauses (cfg : Cfg) (pre : PinMap) (op : Op) (post : PinMap) : List (Strin
   | .unpinPath p => (match resolve cfg p with
       | some c => unpinClauses cfg pre post c
       | none => [("unpin_effect", false)])
-  | .rpcPin p => [("rpc_pin_stored", (post.get p.cid).isSome)]
+  | .rpcPin p => [("rpc_pin_stored", (post.get p.cid).isSome),
+                  ("rpc_pin_stored_as_sent", sentAsIs cfg pre post p)]
 
 def clauses (cfg : Cfg) (pre : PinMap) (op : Op) (res : Option Pin) (post : PinMap) : List (String × Bool) :=
   genericClauses cfg pre op res post ++ (if res.isSome then okClauses cfg pre op post else [])
